@@ -213,6 +213,11 @@ _p["segments"][0]["ops"].append({"i": 3, "op": "READ", "fmt": "xml", "path": "d0
                                  "pathstyle": "abs", "reader": "reuse"})
 add("FX-31", "1794224", "C09", "xmlpeer.valid_rejected", "XMLReader.transform",
     "a second transform() on the same XMLReader object raised DuplicatedFeature", _p)
+add("FX-32", "e2606e1", "C02", "wf.rel_empty", "XMLReader.transform",
+    "XMLReader accepted a relation element without child features (empty Relation.children)",
+    put_plan("xml", '<feature-model><feature name="A"><binaryRelation name="R-1"><cardinality '
+             'min="0" max="1"/></binaryRelation></feature></feature-model>', {"kind": "any"},
+             "C09"))
 
 
 def main():
